@@ -62,7 +62,9 @@ def run(ctx):
     thorough = 0 if ctx.quick else 1
     targets = []
     for name, lang, flags in (("c_any", "c", []), ("c_little", "c", ["--target-endianness", "little"]), ("c_big", "c", ["--target-endianness", "big"]),
-                              ("cpp14", "cpp", []), ("cpp17", "cpp", ["--language-standard", "c++17"])):
+                              ("cpp14", "cpp", []), ("cpp17", "cpp", ["--language-standard", "c++17"]),
+                              # the library's own assertions armed (a failing one aborts the driver): results may not depend on the option
+                              ("c_asserts", "c", ["--enable-serialization-asserts"]), ("cpp14_asserts", "cpp", ["--enable-serialization-asserts"])):
         out, err = gen_support(ctx, lang, flags, name)
         if out is None:
             ctx.refute(None, "support generation failed for %s" % name, dict(stderr=err))
@@ -72,7 +74,8 @@ def run(ctx):
         for kind in kinds:
             binary = os.path.join(ctx.scratch, "drv_%s_%s" % (name, kind))
             okb, berr = build.compile_unit(os.path.join(HERE, "driver.cpp" if is_cpp else "driver.c"), binary, [out, HERE], kind, cxx=is_cpp,
-                                           std=("c++17" if "17" in name else "c++14") if is_cpp else "c11")
+                                           std=("c++17" if "17" in name else "c++14") if is_cpp else "c11",
+                                           extra=["-include", os.path.join(HERE, "assert_hook.h")] if "asserts" in name else ())
             if not okb:
                 ctx.refute(None, "driver does not compile against the generated %s support header" % name, dict(stderr=berr[-1500:]))
                 continue
